@@ -30,8 +30,13 @@ func sanitize(cfg string) string {
 	for _, l := range strings.Split(cfg, "\n") {
 		t := strings.ToLower(strings.TrimSpace(l))
 		bad := false
+		name := t
+		if i := strings.IndexAny(t, " \t"); i >= 0 {
+			name = t[:i]
+		}
 		for _, d := range fileDirectives {
-			if strings.HasPrefix(t, d) && !strings.Contains(l, safeDir()) {
+			// the directive name itself (SecAuditLogFormat, SecAuditLogParts, … are not file directives)
+			if name == d && !strings.Contains(l, safeDir()) {
 				bad = true
 			}
 		}
@@ -226,7 +231,7 @@ func init() {
 			case "restpath":
 				return "@restpath " + c.r.Pick("/a/{id}", "/{a}/{b}", "{", "/a")
 			case "validateNid":
-				return "@validateNid " + c.r.Pick("cl \\d+", "us \\d{3}", "xx a", "cl", "")
+				return "@validateNid " + c.r.Pick("cl \\d+", "us \\d{3}", "xx a", "cl", "", "cl .*", "us .*", "cl [-.k0-9]+", "us \\S+")
 			case "inspectFile", "ipMatchFromFile", "ipMatchF", "validateSchema", "validateDTD":
 				return "@unconditionalMatch"
 			}
@@ -345,11 +350,20 @@ func init() {
 				case "wb", "rb", "wr":
 					a1 = c.r.Pick("a=1&b=2", "{\"a\":{\"b\":[1,2]}}", "<a><b>x</b></a>", "--x\r\nContent-Disposition: form-data; name=\"f\"; filename=\"a\"\r\n\r\nzz\r\n--x--\r\n", "{", "<a", "--x\r\n", "") + c.r.Bytes(2)
 				}
+				if c.r.Chance(0.1) {
+					// values an operator's own parsing may trip over: separator runs, digits with check characters, addresses, ranges
+					a2 = c.r.Pick("--------", "........k", "12345678-5", "000000000", "123-45-6789", "kkkkkkkkkk", "1.2.3.4", "::ffff:1.2.3.4", "99999999999999999999", "-", "%", "%u", "\\", "11.111.111-1", "---------k")
+				}
 				sc = append(sc, op+"\x00"+a1+"\x00"+a2)
 			}
 			if i%10 == 3 {
 				// logging stress: every value is matched, logged and rendered (error log + audit record)
-				cfg = "SecRuleEngine On\nSecAuditEngine On\nSecAuditLogParts ABCFHKZ\nSecAuditLog " + filepath.Join(safeDir(), "a.log") + "\n" +
+				// every registered audit format x parts with and without the rule list (K), trailer (H), bodies; both file writers
+				auditCfg := "SecAuditLogParts " + c.r.Pick("ABCFHKZ", "ABCFHKZ", "ABCFHZ", "AHZ", "ABCDEFGHIJKZ", "AKZ", "ABCZ", "AZ") + "\nSecAuditLogFormat " + c.r.Pick("Native", "JSON", "JsonLegacy", "ocsf", "OCSF", "json") + "\n"
+				if c.r.Chance(0.3) {
+					auditCfg += "SecAuditLogType Concurrent\nSecAuditLogStorageDir " + safeDir() + "\n"
+				}
+				cfg = "SecRuleEngine On\nSecAuditEngine On\n" + auditCfg + "SecAuditLog " + filepath.Join(safeDir(), "a.log") + "\n" +
 					"SecRule ARGS|ARGS_NAMES|REQUEST_HEADERS|REQUEST_URI \"@unconditionalMatch\" \"id:1,phase:1,pass,log,auditlog,msg:'" + c.r.Pick("%{MATCHED_VAR}", "m", "%{MATCHED_VAR_NAME}") +
 					"',logdata:'" + c.r.Pick("%{MATCHED_VAR}", "%{MATCHED_VAR_NAME}", "d") + "'" + c.r.Pick("", ",t:urlDecode", ",t:lowercase", ",multiMatch,t:urlDecode") + "\""
 				long := strings.Repeat(c.r.Pick("\x80", "a", "\xc3\xa9", "\xe4\xbd\xa0", "\xf0\x9f\x98\x80", "%80", "\""), 275+c.r.Intn(12))
